@@ -92,6 +92,13 @@ def gen_padded(rng, tier, idx):
     thr = rng.choice([2, 3, 3, 4, 5])
     cutoff = rng.choice([2, 3, 10])
     npad = 3
+    # "padded-trees": every word the transactions use already has an IFBTree posting (DICT_CUTOFF 2, three
+    # padding documents per text) - the only shape in which two text-indexing transactions can both commit
+    trees = rng.random() < 0.25
+    tseeds = rng.sample([7, 13, 20, 27, 9, 15, 22, 29, 35], 2)
+    if trees:
+        cutoff = 2
+        npad = 6
     nids = npad + rng.randrange(6, 12)
     live = list(range(npad, nids))
     rng.shuffle(live)
@@ -101,10 +108,16 @@ def gen_padded(rng, tier, idx):
            rng.choice([7, 13, 20, 27])]
     seeds = [rng.randrange(7, 60) for _ in range(2)]
 
+    if trees:
+        hot[3], hot[4] = rng.choice(tseeds), rng.choice(tseeds)
+
     def docspec():
         r = rng.random()
         if r < 0.6:
             return list(hot)
+        if trees:
+            return [rng.choice([1, 2, 3]), rng.choice([2, 4, 6, 8, 12]), rng.choice([1, 2, 4, 8]),
+                    rng.choice(tseeds), rng.choice(tseeds)]
         return [rng.choice([1, 2, 3]), rng.choice([2, 4, 6, 8, 12]), rng.choice([1, 2, 4, 8]),
                 rng.choice(seeds + [hot[3]]), rng.choice(seeds + [hot[4]])]
     k = [0]
@@ -114,7 +127,7 @@ def gen_padded(rng, tier, idx):
         cmds.append([who, k[0], op, d] + (spec if spec is not None else []))
         k[0] += 1
     for d in range(npad):                       # padding: smallest keys everywhere
-        add("base", "index", d, [0, 1, 0, 1, 1])
+        add("base", "index", d, [0, 1, 0, tseeds[d % 2], tseeds[d % 2]] if trees else [0, 1, 0, 1, 1])
     directed = rng.random() < 0.5
     if directed:
         n_hot = rng.choice([thr - 1, thr - 1, cutoff - 1, thr, max(1, thr - 2)])
@@ -147,7 +160,7 @@ def gen_padded(rng, tier, idx):
             if first == "unindex":
                 out.append((who, "unindex", d1, None))
             else:
-                out.append((who, "reindex", d1, [3, 8, 8, seeds[0], seeds[0]]))
+                out.append((who, "reindex", d1, [3, 8, 8, tseeds[0], tseeds[1]] if trees else [3, 8, 8, seeds[0], seeds[0]]))
             if rng.random() < 0.8:
                 out.append((who, "index", d2, list(hot)))
         else:
@@ -177,15 +190,19 @@ def gen_padded(rng, tier, idx):
     # look like base, winner, loser in that order (seeded change C19_C kept per-connection state across abort)
     cmds.append([rng.choice(["check", "retrycheck"])])
     r = rng.random()
-    if r < 0.25:
+    if trees and r < 0.7:
+        present = [rng.choice(["i3", "i4"])] if r < 0.6 else ["i3", "i4"]
+    elif r < 0.25:
         present = list(c09.ALL)
     elif r < 0.85:
         present = [rng.choice(c09.ALL)]
     else:
         present = sorted(rng.sample(list(c09.ALL), 2))
+    mode = ("padded-trees-directed" if directed else "padded-trees") if trees else \
+        ("padded-directed" if directed else "padded")
     return {"session": "concurrency",
             "cfg": [["cfg", "ids", nids], ["cfg", "cutoff", cutoff], ["cfg", "present"] + present,
-                    ["cfg", "thr", thr], ["cfg", "mode", "padded-directed" if directed else "padded"]],
+                    ["cfg", "thr", thr], ["cfg", "mode", mode]],
             "cmds": cmds}
 
 
@@ -382,7 +399,32 @@ def objobs(cat, ids):
                                                                            re.findall(r"'([^']*)'", r)))))
         fwd = ["%d:%s" % (names.index(w), idset(ix.applyEq(w))) for w in sorted(ix.unique_values(), key=names.index)]
         out.append("%s rev=[%s] ni=%s fwd=[%s] inv=1" % (name, " ".join(rev), idset(ix.not_indexed()), " ".join(fwd)))
+    for name in ("i3", "i4"):
+        if name not in cat:
+            continue
+        ix = cat[name]
+        rev = []
+        for d in ids:
+            r = ix.document_repr(d)
+            if r is not None:
+                rev.append("%d:%s" % (d, ",".join(str(wordcode(w)) for w in r.split())))
+        fwd = []
+        for w in sorted(ix.lexicon.words(), key=wordcode):
+            try:
+                post = idset(ix.apply(w).keys())
+            except Exception as e:          # e.g. ZeroDivisionError on an inconsistent stored state
+                post = exc_name(e).replace(" ", "-")
+            if post != "{}":
+                fwd.append("%d:%s" % (wordcode(w), post))
+        out.append("%s rev=[%s] ni=%s ic=%d wc=%d lwc=%d fwd=[%s]" % (
+            name, " ".join(rev), idset(ix.not_indexed()), ix.indexed_count(), ix.word_count(),
+            ix.lexicon.word_count(), " ".join(fwd)))
     return " ;; ".join(out)
+
+
+def wordcode(w):
+    """the object-level model's numbering of `make_doc`'s vocabulary"""
+    return c09.WORDS.index(w) if w in c09.WORDS else 100 + int(w[1:])
 
 
 def post_model(hyp, case, mouts, iouts=None):
@@ -404,7 +446,7 @@ def post_model(hyp, case, mouts, iouts=None):
     order = [c[1] for c in case["cmds"] if c[0] == "commit"]
     _LAST["model2"] = "conflict" if any(m.startswith("conflict ") for m in mouts) else "ok"
     _LAST["objects"] = sorted({"%s:%s" % x for m in mouts if m.startswith("conflict ")
-                               for x in re.findall(r"(i\d):(fwd|rev|ni|len|post)", m.split(" ## ")[0])})
+                               for x in re.findall(r"(i\d):(fwd|rev|ni|len|post|wids|words|wordinfo|docwords|docweight|tree)", m.split(" ## ")[0])})
     res = []
     for m in mouts:
         if m.startswith("eff "):
@@ -471,6 +513,13 @@ def features(case, outs):
         f.append("second commit real:%s object-model:%s" % (res[1], _LAST.get("model2")))
         for ob in _LAST.get("objects", []):
             f.append("object-model refuses " + ob)
+    present = case["cfg"][2][2:]
+    for ix, pos in (("i3", 7), ("i4", 8)):
+        if ix in present and len(res) == 2:
+            both = all(any(c[0] == w and c[2] != "unindex" and len(c) > pos and c[pos] != "-" for c in case["cmds"])
+                       for w in ("a", "b"))
+            if both:
+                f.append("%s: both transactions index text, outcomes:%s" % (ix, "+".join(res)))
     for c, o in zip(case["cmds"], outs):
         if c[0] in ("a", "b"):
             f.append("txn-op:" + c[2])
